@@ -41,7 +41,7 @@ fn leaves_mid() -> Vec<Expr> {
 fn leaves_small() -> Vec<Expr> {
     vec![Expr::Num(2.0), Expr::var("K"), Expr::Num(0.5), Expr::Str("a".into())]
 }
-fn leaves_random() -> Vec<Expr> {
+pub fn leaves_random() -> Vec<Expr> {
     let mut v = leaves_full();
     v.extend([Expr::Num(3.0), Expr::Num(10.0), Expr::Num(7.25), Expr::var("Q"), Expr::Str("b".into()), Expr::var("K$")]);
     v
@@ -100,7 +100,7 @@ fn expected(e: &Expr) -> Result<String, ErrKind> {
     m.eval(e).map(|v| format!("{}\n", v.show()))
 }
 
-fn check_expr(c: &ExprCase, rec: &mut CaseRec) -> Verdict {
+pub fn check_expr(c: &ExprCase, rec: &mut CaseRec) -> Verdict {
     let e = &c.expr;
     if kind(e).is_none() {
         rec.excluded = 1;
@@ -358,7 +358,7 @@ pub fn property() -> Property {
             "numbers print in Rust's shortest round-trip decimal form ({}), as the interpreter documents by its own tests",
             "^ is f64::powf on both sides (IEEE-754 does not define pow; the statement's 'IEEE double arithmetic' is read as the platform powf)",
         ],
-        fuzz: None,
+        fuzz: Some(FuzzSpec { target: "c02_expr", runs: 1_000_000, max_len: 64, verdict: crate::fuzz::c02_verdict }),
         families,
         prelude: None,
         epilogue: None,
